@@ -57,7 +57,7 @@ CHECKS = {
         "category": "exploration",
         "design_ref": "DESIGN.md sections 4.3 (F6, F7), 4.5",
         "technique": "deterministic simulation: seeded construction routes (decode, normalize, code trip, JSON/pickle/marshal reload, recompile, leaf-by-leaf clone = identity loss; confusable twin programs) feeding a pool whose every pair and triple is checked against the value contract and a strict to_code() fingerprint partition; complete confusable-constant table cross-checked against CPython's _PyCode_ConstantKey",
-        "text": "Seeded search over routes by which equal (or confusably different) CodeData/Constant values come to exist in one process - where object identity of constants, the hidden state the hash/eq contract depends on, differs - on real CPython 3.7-3.10 under seeded hash seeds; every pair/triple in the pool is checked for hashability, equivalence-relation laws, equal=>equal-hash and set/dict behaviour, == versus the strict fingerprint of to_code(), and immutability; create-use-drop histories (values dropped before the next is built, compared with long-lived clones) expose identity-keyed caches; hand-edited and artefact-variant values must be unequal to their originals; a stack-pressure sweep evaluates hash/==/set membership with r interpreter frames left for every r around exhaustion (each must report the exhaustion or give the shallow answer); a second stage reloads values pickled by the batch workers in fresh processes under another hash seed (restart with only durable state surviving). Sampling of routes and programs; the finite confusables table (incl. hash-colliding constants) is enumerated completely.",
+        "text": "Seeded search over routes by which equal (or confusably different) CodeData/Constant values come to exist in one process - where object identity of constants, the hidden state the hash/eq contract depends on, differs - on real CPython 3.7-3.10 under seeded hash seeds; every pair/triple in the pool is checked for hashability, equivalence-relation laws, equal=>equal-hash and set/dict behaviour, == versus the strict fingerprint of to_code(), and immutability; create-use-drop histories (values dropped before the next is built, compared with long-lived clones) expose identity-keyed caches; hand-edited and artefact-variant values must be unequal to their originals; a variant of the first program (equal under CPython's code ==) is decoded while its original is alive and again after the original was dropped (the same code object decoded twice must give equal values); a stack-pressure sweep evaluates hash/==/set membership with r interpreter frames left for every r around exhaustion (each must report the exhaustion or give the shallow answer); a second stage reloads values pickled by the batch workers in fresh processes under another hash seed (restart with only durable state surviving). Sampling of routes and programs; the finite confusables table (incl. hash-colliding constants) is enumerated completely.",
         "note": "Trusted: strict fingerprints (sim/fp.py) as the reference partition, cross-checked on every constant pair against ctypes _PyCode_ConstantKey with NaNs interned (a disagreement is a harness error).",
     },
     "C11": {
